@@ -233,6 +233,70 @@ theorem keysDisjoint_count {l : List (Part D)} (h : KeysDisjoint l) (k : Int) :
     · simp only [List.filter_cons, hm, decide_false, Bool.false_eq_true, if_false]
       exact ih hd.2
 
+/-! ### `update_partitions()` on at most two partitions does separate the intervals -/
+
+theorem length_insertPart (p : Part D) (l : List (Part D)) : (insertPart p l).length = l.length + 1 := by
+  induction l with
+  | nil => rfl
+  | cons q qs ih => simp only [insertPart]; split <;> simp [ih]
+
+theorem length_sortParts (l : List (Part D)) : (sortParts l).length = l.length := by
+  induction l with
+  | nil => rfl
+  | cons q qs ih => simp [sortParts, length_insertPart, ih]
+
+theorem mergeAdj_short_disjoint (l : List (Part D)) (h : l.length ≤ 2) : KeysDisjoint (mergeAdj l) := by
+  match l, h with
+  | [], _ => exact List.Pairwise.nil
+  | [p], _ => simp [mergeAdj, KeysDisjoint]
+  | [a, b], _ =>
+    simp only [mergeAdj]
+    split
+    · simp [KeysDisjoint]
+    · rename_i hge
+      simp only [KeysDisjoint, List.pairwise_cons, List.mem_singleton, forall_eq, List.not_mem_nil,
+        false_imp_iff, implies_true, List.Pairwise.nil, and_true]
+      rintro k ⟨⟨_, h2⟩, ⟨h3, _⟩⟩
+      exact hge (Bound.le_trans h3 h2)
+
+theorem refreshGo_flag_pos (x : V) (n : Nat) (l : List (Part D)) (hn : 0 < n) : (refreshGo x n l).2 = false := by
+  induction l generalizing n with
+  | nil => rfl
+  | cons q qs ih =>
+    simp only [refreshGo]
+    split
+    · split
+      · exact ih (n + 1) (Nat.succ_pos _)
+      · rename_i hc; exfalso; apply hc; omega
+    · exact ih (n + 1) (Nat.succ_pos _)
+
+/-- the early `return` leaves exactly one partition -/
+theorem refreshGo_stop (x : V) (l : List (Part D)) (h : (refreshGo x 0 l).2 = true) :
+    ∃ p, (refreshGo x 0 l).1 = [p] := by
+  match l with
+  | [] => simp [refreshGo] at h
+  | p0 :: ps =>
+    simp only [refreshGo] at h ⊢
+    split
+    · split
+      · rename_i h1 h2
+        simp only [h1, h2, if_true] at h
+        rw [refreshGo_flag_pos x 1 ps (Nat.succ_pos _)] at h; cases h
+      · exact ⟨_, rfl⟩
+    · rename_i h1
+      simp only [h1, Bool.false_eq_true, if_false] at h
+      rw [refreshGo_flag_pos x 1 ps (Nat.succ_pos _)] at h; cases h
+
+theorem updateParts_short_disjoint {a : VP D} {x : V} (hv : a.var = some x)
+    (h : (refreshGo x 0 a.parts).1.length ≤ 2) : KeysDisjoint (updateParts a).parts := by
+  rw [updateParts_some hv]
+  split
+  · rename_i hstop
+    obtain ⟨p, hp⟩ := refreshGo_stop x a.parts hstop
+    show KeysDisjoint (refreshGo x 0 a.parts).1
+    rw [hp]; simp [KeysDisjoint]
+  · exact mergeAdj_short_disjoint _ (by rw [length_sortParts]; exact h)
+
 /-! ### reflexivity of `operator<=` on separated intervals -/
 
 /-- non-empty intervals, each strictly before the next -/
